@@ -4069,6 +4069,990 @@ theorem C03_end_to_end_last_tile_loss (envS : Source.Env) (envD : Dest.Env) (s :
     cases envD.cfg.indEofRecv <;> simp [isFinished, fpOk]
 
 
+
+section AnyLoss
+open Cfdp.C06 Cfdp.Tracker
+
+/-! ## Any loss pattern of File Data PDUs (deferred NAK mode): the receiver side -/
+
+/-- the tracker fields written back into the parameter block -/
+def withTs (p : Params) (T : TS) : Params := { p with lastStart := T.ls, lastEnd := T.le, trk := T.trk }
+
+/-- `_lost_segment_handling` in deferred NAK mode: exactly `TS.tile`, nothing queued, nothing else touched -/
+theorem lsh_deferred (d : DestSt) (rc : RemoteCfg) (a b : Nat) (hab : a ≤ b)
+    (hrc : d.p.remoteCfg = some rc) (himm : rc.imm = false) :
+    lostSegmentHandling a (b - a) d = .ok () { d with p := withTs d.p ((tsOf d.p).tile a b) } := by
+  have hb : a + (b - a) = b := by omega
+  unfold lostSegmentHandling
+  rw [hb]
+  by_cases h1 : a > d.p.lastEnd
+  · have h2 : a ≥ d.p.lastEnd := by omega
+    by_cases h4 : b ≤ a
+    · cases hr : Tracker.remove (Tracker.add d.p.trk (d.p.lastEnd, a)) a b <;>
+        (msimp [getP, modP, addPacket, h1, h2, h4, hrc, himm, hr]
+         (simp [withTs, tsOf, TS.tile, h1, h2, h4, hr] <;> rw [← hrc]))
+    · msimp [getP, modP, addPacket, h1, h2, h4, hrc, himm]
+      (simp [withTs, tsOf, TS.tile, h1, h2, h4] <;> rw [← hrc])
+  · by_cases h2 : a ≥ d.p.lastEnd
+    · by_cases h4 : b ≤ a
+      · cases hr : Tracker.remove d.p.trk a b <;>
+          (msimp [getP, modP, addPacket, h1, h2, h4, hrc, hr]
+           (simp [withTs, tsOf, TS.tile, h1, h2, h4, hr] <;> rw [← hrc]))
+      · msimp [getP, modP, addPacket, h1, h2, h4, hrc]
+        (simp [withTs, tsOf, TS.tile, h1, h2, h4] <;> rw [← hrc])
+    · by_cases h4 : b ≤ d.p.lastStart
+      · cases hr : Tracker.remove d.p.trk a b <;>
+          (msimp [getP, modP, addPacket, h1, h2, h4, hrc, hr]
+           (simp [withTs, tsOf, TS.tile, h1, h2, h4, hr] <;> rw [← hrc]))
+      · msimp [getP, modP, addPacket, h1, h2, h4, hrc]
+        (simp [withTs, tsOf, TS.tile, h1, h2, h4] <;> rw [← hrc])
+
+/-- receiver in the middle of an acknowledged transfer in deferred NAK mode after the File Data PDUs of
+the history `h` (tiles of the grid, any order, any losses, any duplicates): the file holds `c`, whose
+length is the in-order marker and whose bytes at every delivered position are the source file's; the
+tracker satisfies `TInv`; nothing queued, no fault so far -/
+structure RecvG (d : DestSt) (dst : String) (F c : List UInt8) (seg : Nat) (h : List (Nat × Nat))
+    (rc : RemoteCfg) (t : Tid) (cks : Nat) (conf : Hdr) : Prop where
+  hbusy : d.state = .busy
+  hstep : d.step = .RECEIVING_FILE_DATA
+  hready : d.numReady = 0
+  hqueue : d.queue = []
+  hconf : d.p.conf = conf
+  hmode : conf.mode = .ack
+  hname : d.p.fileName = dst
+  hfile : d.fs.get dst = some (.file c)
+  hlen : c.length = d.p.lastEnd
+  hcov : ∀ x, covered h x → c[x]? = F[x]?
+  hprog : d.p.progress = d.p.lastEnd
+  hnoEof : d.p.fileSizeEof = none
+  hrc : d.p.remoteCfg = some rc
+  himm : rc.imm = false
+  htid : d.p.tid = some t
+  hrej : d.rejects = []
+  hcks : d.p.cksType = cks
+  hcancel : d.p.canceled = false
+  hmo : d.p.metadataOnly = false
+  hflts : d.flts = []
+  hfin : d.p.fin = ⟨ccNoError, dcIncomplete, fsRetained, none⟩
+  hmm : d.p.metadataMissing = false
+  hdef : d.p.deferredActive = false
+  hpt : d.p.procTimer = none
+  hinv : TInv seg F.length h (tsOf d.p)
+
+/-- the bytes of the tile `[a, b)` of `F` -/
+def tileData (F : List UInt8) (a b : Nat) : List UInt8 := (F.drop a).take (b - a)
+
+theorem tileData_length {F : List UInt8} {seg a b : Nat} (hT : Tile seg F.length a b) :
+    (tileData F a b).length = b - a := by
+  have := hT.le_size
+  simp [tileData]; omega
+
+theorem tileData_get {F : List UInt8} {seg a b : Nat} (hT : Tile seg F.length a b) (i : Nat) (hi : i < b - a) :
+    (tileData F a b)[i]? = F[a + i]? := by
+  simp [tileData, List.getElem?_take, hi, List.getElem?_drop]
+
+/-- below the in-order marker a tile ends at or below the marker -/
+theorem _root_.Cfdp.C06.TInv.tile_below {seg size : Nat} {h : List (Nat × Nat)} {s : TS} (hs : 0 < seg) (hi : TInv seg size h s)
+    {a b : Nat} (hT : Tile seg size a b) (ha : a < s.le) : b ≤ s.le := by
+  rcases hi.leGrid with hg | hg
+  · have := dvd_gap hT.1 hg ha
+    obtain ⟨_, _, rfl⟩ := hT; omega
+  · rw [hg]; exact hT.le_size
+
+/-- the in-order marker after a tile: the larger of the old marker and the tile's end -/
+theorem _root_.Cfdp.C06.TS.tile_le {seg size : Nat} {h : List (Nat × Nat)} (s : TS) (hs : 0 < seg) (hi : TInv seg size h s)
+    {a b : Nat} (hT : Tile seg size a b) : (s.tile a b).le = max s.le b := by
+  have hab := hT.lt hs
+  by_cases ha : a < s.le
+  · rw [(s.tile_marker_of_lt ha).1]
+    have := hi.tile_below hs hT ha; omega
+  · have h2 : a ≥ s.le := by omega
+    unfold TS.tile
+    simp only [h2, if_true]
+    have : ¬ b ≤ a := by omega
+    simp only [this, if_false]
+    omega
+
+/-- the file after the tile was written: length = the new marker, delivered bytes are the source's -/
+theorem file_after_tile {F c : List UInt8} {seg a b : Nat} {h : List (Nat × Nat)} {s : TS} (hs : 0 < seg)
+    (hi : TInv seg F.length h s) (hT : Tile seg F.length a b) (hlen : c.length = s.le)
+    (hcov : ∀ x, covered h x → c[x]? = F[x]?) :
+    (Fs.writeBytes c (tileData F a b) a).length = (s.tile a b).le ∧
+    ∀ x, covered (h ++ [(a, b)]) x → (Fs.writeBytes c (tileData F a b) a)[x]? = F[x]? := by
+  have hab := hT.lt hs
+  have hdl := tileData_length hT
+  have hne : tileData F a b ≠ [] := by
+    intro hc; rw [hc] at hdl; simp at hdl; omega
+  constructor
+  · rw [s.tile_le hs hi hT]
+    have hemp : (tileData F a b).isEmpty = false := by cases h0 : tileData F a b <;> simp_all
+    simp only [Fs.writeBytes, hemp]
+    by_cases hgt : a > c.length
+    · simp [hgt, hdl]; omega
+    · simp [hgt, hdl]
+      by_cases ha : a < s.le
+      · have := hi.tile_below hs hT ha; omega
+      · omega
+  · intro x hx
+    rw [covered_append] at hx
+    rw [Fs.C17.write_get c _ a x hne, hdl]
+    by_cases hin : a ≤ x ∧ x < b
+    · have h1 : ¬ x < a := by omega
+      have h2 : x < a + (b - a) := by omega
+      simp only [h1, h2, if_false, if_true]
+      rw [tileData_get hT (x - a) (by omega)]
+      congr 1; omega
+    · have hc : covered h x := hx.resolve_right hin
+      obtain ⟨q, hq, q1, q2⟩ := hc
+      have hxl : x < c.length := by have := hi.hle q hq; omega
+      by_cases h1 : x < a
+      · simp only [h1, if_true, Fs.C17.padded_get, hxl]
+        exact hcov x ⟨q, hq, q1, q2⟩
+      · have h2 : ¬ x < a + (b - a) := by omega
+        simp only [h1, h2, if_false, Fs.C17.padded_get, hxl, if_true]
+        exact hcov x ⟨q, hq, q1, q2⟩
+
+/-- state after a tile in `RecvG` -/
+def afterTileG (d : DestSt) (dst : String) (c data : List UInt8) (a b : Nat) (env : Env) (t : Tid) : DestSt :=
+  { d with fs := d.fs.set dst (.file (Fs.writeBytes c data a)),
+           p := { withTs d.p ((tsOf d.p).tile a b) with progress := max b d.p.progress },
+           inds := d.inds ++ (if env.cfg.indSegRecv then [.segRecv (some t) a (b - a)] else []) }
+
+/-- **One File Data PDU, any position.**  The receiver (acknowledged, deferred NAK mode) after the
+history `h` gets the tile `[a, b)` — new, out of order, a duplicate —: the call returns, queues nothing,
+declares nothing; the file and the tracker are as `RecvG` says for the history `h ++ [(a, b)]`. -/
+theorem C03_tile_any (env : Env) (d : DestSt) (dst : String) (F c : List UInt8) (seg : Nat)
+    (h : List (Nat × Nat)) (rc : RemoteCfg) (t : Tid) (cks : Nat) (conf hd : Hdr) (a b : Nat)
+    (hs : 0 < seg) (hr : RecvG d dst F c seg h rc t cks conf) (ha : AdmissibleA env rc hd)
+    (hT : Tile seg F.length a b) :
+    stateMachine env (some (.fd hd a (tileData F a b))) d =
+      .ok () (afterTileG d dst c (tileData F a b) a b env t) ∧
+    RecvG (afterTileG d dst c (tileData F a b) a b env t) dst F (Fs.writeBytes c (tileData F a b) a) seg
+      (h ++ [(a, b)]) rc t cks conf := by
+  have hab := hT.lt hs
+  have hdl := tileData_length hT
+  have hsum : a + (b - a) = b := by omega
+  have hm : d.p.conf.mode = .ack := by rw [hr.hconf]; exact hr.hmode
+  obtain ⟨hflen, hfcov⟩ := file_after_tile hs hr.hinv hT hr.hlen hr.hcov
+  have hle' := (tsOf d.p).tile_le hs hr.hinv hT
+  constructor
+  · obtain ⟨st, stp, nr, p, q, fs, fl, rej, ind, flt⟩ := d
+    have h1 := hr.hbusy; have h2 := hr.hstep; have h3 := hr.hready; have h4 := hr.hqueue; have h5 := hr.hrej
+    have h6 := hr.htid; have h7 := hr.hname; have h8 := hr.hfile; have h9 := hr.hnoEof; have h10 := hr.hfin
+    have h11 := hr.hrc
+    try simp only at h1 h2 h3 h4 h5 h6 h7 h8 h9 h10 h11 hm
+    subst h1 h2 h3 h4 h5
+    cases hi : env.cfg.indSegRecv
+    · have hl := lsh_deferred ⟨.busy, .RECEIVING_FILE_DATA, 0, p, [], fs, fl, [], ind, flt⟩ rc a b
+        (Nat.le_of_lt hab) h11 hr.himm
+      try simp only at hl
+      msimp [stateMachine, stateMachineWith, checkInsertedPacket, Pdu.hdr, ha.hdir, ha.hdst, ha.hsrc, Pdu.kind,
+        Route.getPacketDestination, transmissionMode, hm, nonIdleFsm,
+        fsmAdvancementAfterPacketsWereSent, fsmFromReceiving, handleFdOrEofPdu, handleFdPdu,
+        fdIndication, hi, getP, emitInd, h6, fdLostSegments, hdl, hl,
+        fdWrite, vfsWriteData, h7, withTs,
+        Fs.writeData, h8, fdAfterWrite, sizeErrOf, modP, h9, hsum, fsmFromWaitingForMetadata,
+        fsmFromCheckLimit, fsmFromWaitingForMissingData, fsmFromTransferCompletion, fsmFromSendingFinishedPdu,
+        fsmFromWaitingForFinishedAck, afterTileG, h10, tsOf]
+    · have hl := lsh_deferred ⟨.busy, .RECEIVING_FILE_DATA, 0, p, [], fs, fl, [],
+          ind ++ [.segRecv (some t) a (b - a)], flt⟩ rc a b (Nat.le_of_lt hab) h11 hr.himm
+      try simp only at hl
+      msimp [stateMachine, stateMachineWith, checkInsertedPacket, Pdu.hdr, ha.hdir, ha.hdst, ha.hsrc, Pdu.kind,
+        Route.getPacketDestination, transmissionMode, hm, nonIdleFsm,
+        fsmAdvancementAfterPacketsWereSent, fsmFromReceiving, handleFdOrEofPdu, handleFdPdu,
+        fdIndication, hi, getP, emitInd, h6, fdLostSegments, hdl, hl,
+        fdWrite, vfsWriteData, h7, withTs,
+        Fs.writeData, h8, fdAfterWrite, sizeErrOf, modP, h9, hsum, fsmFromWaitingForMetadata,
+        fsmFromCheckLimit, fsmFromWaitingForMissingData, fsmFromTransferCompletion, fsmFromSendingFinishedPdu,
+        fsmFromWaitingForFinishedAck, afterTileG, h10, tsOf]
+  · exact
+      { hbusy := hr.hbusy, hstep := hr.hstep, hready := hr.hready, hqueue := hr.hqueue,
+        hconf := by simp [afterTileG, withTs, hr.hconf], hmode := hr.hmode,
+        hname := by simp [afterTileG, withTs, hr.hname],
+        hfile := by simp [afterTileG, Fs.C17.get_set_same],
+        hlen := by simp [afterTileG, withTs, hflen],
+        hcov := hfcov,
+        hprog := by
+          show max b d.p.progress = ((tsOf d.p).tile a b).le
+          rw [hle', hr.hprog]
+          show max b d.p.lastEnd = max d.p.lastEnd b
+          omega,
+        hnoEof := by simp [afterTileG, withTs, hr.hnoEof], hrc := by simp [afterTileG, withTs, hr.hrc],
+        himm := hr.himm, htid := by simp [afterTileG, withTs, hr.htid], hrej := hr.hrej,
+        hcks := by simp [afterTileG, withTs, hr.hcks], hcancel := by simp [afterTileG, withTs, hr.hcancel],
+        hmo := by simp [afterTileG, withTs, hr.hmo], hflts := hr.hflts,
+        hfin := by simp [afterTileG, withTs, hr.hfin], hmm := by simp [afterTileG, withTs, hr.hmm],
+        hdef := by simp [afterTileG, withTs, hr.hdef], hpt := by simp [afterTileG, withTs, hr.hpt],
+        hinv := by
+          have := hr.hinv.tile hs hT
+          simpa [afterTileG, withTs, tsOf] using this }
+
+/-- the File Data PDUs of the tiles of a history handed to the receiver, one call each (`none`: a call raised) -/
+def feedTiles (env : Env) (hd : Hdr) (F : List UInt8) : List (Nat × Nat) → DestSt → Option DestSt
+  | [], d => some d
+  | q :: rest, d =>
+    match stateMachine env (some (.fd hd q.1 (tileData F q.1 q.2))) d with
+    | .ok _ d' => feedTiles env hd F rest d'
+    | .error _ _ => none
+
+/-- **Any history of File Data PDUs.**  After the Metadata PDU, the File Data PDUs of any list of tiles
+— any order, any tile any number of times, any tile never — are each taken in one call that returns,
+queues nothing and declares nothing; afterwards the receiver is in `RecvG` for the whole history: the
+file's length is the largest end seen, every delivered byte is the source file's, the tracker lists
+exactly the undelivered bytes below that end, and no other path of the filestore was touched. -/
+theorem C03_receiver_any_history (env : Env) (hd : Hdr) (dst : String) (F : List UInt8) (seg : Nat)
+    (rc : RemoteCfg) (t : Tid) (cks : Nat) (conf : Hdr) (hs : 0 < seg) (ha : AdmissibleA env rc hd) :
+    ∀ (h2 : List (Nat × Nat)) (d : DestSt) (c : List UInt8) (h : List (Nat × Nat)),
+      (∀ q ∈ h2, Tile seg F.length q.1 q.2) → RecvG d dst F c seg h rc t cks conf →
+      ∃ d' c', feedTiles env hd F h2 d = some d' ∧ RecvG d' dst F c' seg (h ++ h2) rc t cks conf ∧
+        (∀ q, q ≠ dst → d'.fs.get q = d.fs.get q) ∧
+        d'.inds.filter isFinished = d.inds.filter isFinished := by
+  intro h2
+  induction h2 with
+  | nil => intro d c h _ hr; exact ⟨d, c, rfl, by simpa using hr, fun _ _ => rfl, rfl⟩
+  | cons q h2 ih =>
+    intro d c h hT hr
+    obtain ⟨hcall, hr'⟩ := C03_tile_any env d dst F c seg h rc t cks conf hd q.1 q.2 hs hr ha (hT q List.mem_cons_self)
+    obtain ⟨d', c', hf, hR, hother, hfin⟩ := ih _ _ _ (fun r hr => hT r (List.mem_cons_of_mem _ hr)) hr'
+    refine ⟨d', c', ?_, ?_, ?_, ?_⟩
+    · simp only [feedTiles, hcall]; exact hf
+    · simpa [List.append_assoc] using hR
+    · intro p hp
+      rw [hother p hp]
+      simp [afterTileG, Fs.C17.get_set_other _ _ _ _ hp]
+    · rw [hfin]
+      simp only [afterTileG, List.filter_append]
+      split <;> simp [isFinished]
+
+/-- a receiver that took the Metadata PDU (acknowledged, deferred NAK mode) is in `RecvG` for the empty history -/
+theorem RecvG.ofReceivingA {d : DestSt} {dst : String} {F : List UInt8} {seg : Nat} {rc : RemoteCfg} {t : Tid}
+    {cks : Nat} {conf : Hdr} (hr : ReceivingA d dst [] rc t cks conf) (himm : rc.imm = false)
+    (hpt : d.p.procTimer = none) :
+    RecvG d dst F [] seg [] rc t cks conf :=
+  { hbusy := hr.hbusy, hstep := hr.hstep, hready := hr.hready, hqueue := hr.hqueue, hconf := hr.hconf,
+    hmode := hr.hmode, hname := hr.hname, hfile := hr.hfile,
+    hlen := by have := hr.hlastE; simp at this; simp [this],
+    hcov := fun x hx => by obtain ⟨q, hq, _⟩ := hx; simp at hq,
+    hprog := by have := hr.hprog; have := hr.hlastE; simp_all,
+    hnoEof := hr.hnoEof, hrc := hr.hrc, himm := himm, htid := hr.htid, hrej := hr.hrej, hcks := hr.hcks,
+    hcancel := hr.hcancel, hmo := hr.hmo, hflts := hr.hflts, hfin := hr.hfin, hmm := hr.hmm, hdef := hr.hdef,
+    hpt := hpt,
+    hinv := by
+      have h1 := hr.hlastE; have h2 := hr.hlastS; have h3 := hr.htrk
+      simp at h1 h2
+      have : tsOf d.p = ⟨0, 0, []⟩ := by simp [tsOf, h1, h2, h3]
+      rw [this]; exact TInv.init seg F.length }
+
+/-- the tail that the EOF makes lost -/
+def tailTrk (T : TS) (size : Nat) : Tracker.T :=
+  if T.le < size then Tracker.add T.trk (T.le, size) else T.trk
+
+/-- state after the EOF PDU in `RecvG`: the tail beyond the in-order marker is lost, the ACK (EOF) is queued -/
+def afterEofG (env : Env) (d : DestSt) (t : Tid) (crc : List UInt8) (size : Nat) : DestSt :=
+  { d with step := .SENDING_EOF_ACK_PDU,
+           p := { eofP d.p crc size with trk := tailTrk (tsOf d.p) size },
+           queue := [mkAck d.p.conf dtEof ccNoError tsActive], numReady := 1,
+           inds := d.inds ++ (if env.cfg.indEofRecv then [.eofRecv t] else []) }
+
+/-- **The EOF after any history**: acknowledged with exactly one ACK (EOF); the tail `[marker, size)`
+becomes lost; the file is untouched, no fault. -/
+theorem C03_eof_any (env : Env) (d : DestSt) (dst : String) (F c crc : List UInt8) (seg : Nat)
+    (h : List (Nat × Nat)) (rc : RemoteCfg) (t : Tid) (cks : Nat) (conf hd : Hdr)
+    (hr : RecvG d dst F c seg h rc t cks conf) (ha : AdmissibleA env rc hd) :
+    stateMachine env (some (.eof hd ccNoError crc F.length none)) d = .ok () (afterEofG env d t crc F.length) := by
+  have hm : d.p.conf.mode = .ack := by rw [hr.hconf]; exact hr.hmode
+  have hle : d.p.lastEnd ≤ F.length := hr.hinv.leSize
+  have hngt : ¬ d.p.lastEnd > F.length := by omega
+  by_cases hlt : d.p.lastEnd < F.length
+  · cases hi : env.cfg.indEofRecv <;>
+    msimp [stateMachine, stateMachineWith, checkInsertedPacket, Pdu.hdr, ha.hdir, ha.hdst, ha.hsrc, Pdu.kind,
+      Route.getPacketDestination, hr.hbusy, transmissionMode, hm, nonIdleFsm,
+      fsmAdvancementAfterPacketsWereSent, hr.hqueue, hr.hstep, fsmFromReceiving, handleFdOrEofPdu, handleEofPdu,
+      modP, hi, getP, hr.htid, emitInd, handleNoErrorEof, hr.hprog, hlt, hngt, noErrorEofVerify,
+      fileTransferCompleteTransition, prepareEofAckPacket, addPacket, hr.hready,
+      fsmFromWaitingForMetadata, fsmFromCheckLimit,
+      fsmFromWaitingForMissingData, fsmFromTransferCompletion, fsmFromSendingFinishedPdu, fsmFromWaitingForFinishedAck,
+      afterEofG, eofP, hr.hfin, ccNoError, dtEof, tailTrk, tsOf]
+  · cases hi : env.cfg.indEofRecv <;>
+    msimp [stateMachine, stateMachineWith, checkInsertedPacket, Pdu.hdr, ha.hdir, ha.hdst, ha.hsrc, Pdu.kind,
+      Route.getPacketDestination, hr.hbusy, transmissionMode, hm, nonIdleFsm,
+      fsmAdvancementAfterPacketsWereSent, hr.hqueue, hr.hstep, fsmFromReceiving, handleFdOrEofPdu, handleEofPdu,
+      modP, hi, getP, hr.htid, emitInd, handleNoErrorEof, hr.hprog, hlt, hngt, noErrorEofVerify,
+      fileTransferCompleteTransition, prepareEofAckPacket, addPacket, hr.hready,
+      fsmFromWaitingForMetadata, fsmFromCheckLimit,
+      fsmFromWaitingForMissingData, fsmFromTransferCompletion, fsmFromSendingFinishedPdu, fsmFromWaitingForFinishedAck,
+      afterEofG, eofP, hr.hfin, ccNoError, dtEof, tailTrk, tsOf]
+
+/-- the receiver after the EOF was acknowledged (ACK retrieved), any history -/
+structure AckedG (d : DestSt) (dst : String) (F c crc : List UInt8) (seg : Nat) (h : List (Nat × Nat))
+    (rc : RemoteCfg) (t : Tid) (cks : Nat) (conf : Hdr) : Prop where
+  hbusy : d.state = .busy
+  hstep : d.step = .SENDING_EOF_ACK_PDU
+  hready : d.numReady = 0
+  hqueue : d.queue = []
+  hconf : d.p.conf = conf
+  hmode : conf.mode = .ack
+  hname : d.p.fileName = dst
+  hfile : d.fs.get dst = some (.file c)
+  hlenle : c.length ≤ F.length
+  hcov : ∀ x, covered h x → c[x]? = F[x]?
+  hcrc : d.p.crc32 = crc
+  hfse : d.p.fileSizeEof = some F.length
+  hrc : d.p.remoteCfg = some rc
+  htid : d.p.tid = some t
+  hrej : d.rejects = []
+  hcks : d.p.cksType = cks
+  hcancel : d.p.canceled = false
+  hmo : d.p.metadataOnly = false
+  hflts : d.flts = []
+  hfin : d.p.fin = ⟨ccNoError, dcIncomplete, fsRetained, none⟩
+  hmm : d.p.metadataMissing = false
+  hdef : d.p.deferredActive = false
+  hpt : d.p.procTimer = none
+  htrk : ∃ T, TInv seg F.length h T ∧ d.p.trk = tailTrk T F.length
+
+/-- `RecvG`, the EOF, the ACK retrieved: `AckedG` -/
+theorem AckedG.ofRecvG {env : Env} {d : DestSt} {dst : String} {F c crc : List UInt8} {seg : Nat}
+    {h : List (Nat × Nat)} {rc : RemoteCfg} {t : Tid} {cks : Nat} {conf : Hdr}
+    (hr : RecvG d dst F c seg h rc t cks conf) :
+    AckedG (drained (afterEofG env d t crc F.length)) dst F c crc seg h rc t cks conf :=
+  { hbusy := hr.hbusy, hstep := rfl, hready := rfl, hqueue := rfl, hconf := hr.hconf, hmode := hr.hmode,
+    hname := hr.hname, hfile := hr.hfile,
+    hlenle := by rw [hr.hlen]; exact hr.hinv.leSize,
+    hcov := hr.hcov, hcrc := rfl, hfse := rfl, hrc := hr.hrc, htid := hr.htid, hrej := hr.hrej, hcks := hr.hcks,
+    hcancel := hr.hcancel, hmo := hr.hmo, hflts := hr.hflts, hfin := hr.hfin, hmm := hr.hmm, hdef := hr.hdef,
+    hpt := hr.hpt, htrk := ⟨tsOf d.p, hr.hinv, rfl⟩ }
+
+theorem coalesceGo_ne_nil (t : Tracker.T) : ∀ a b, Tracker.coalesceGo a b t ≠ [] := by
+  induction t with
+  | nil => intro a b; simp [Tracker.coalesceGo]
+  | cons y t ih =>
+    intro a b
+    unfold Tracker.coalesceGo
+    split
+    · exact ih _ _
+    · simp
+
+theorem coalesce_ne_nil {t : Tracker.T} (h : t ≠ []) : Tracker.coalesce t ≠ [] := by
+  cases t with
+  | nil => exact absurd rfl h
+  | cons x t => exact coalesceGo_ne_nil t x.1 x.2
+
+/-- state after the deferred procedure was started with something missing -/
+def afterDeferredG (env : Env) (d : DestSt) (rc : RemoteCfg) (size m : Nat) : DestSt :=
+  { d with step := .WAITING_FOR_MISSING_DATA,
+           p := { d.p with deferredActive := true, trk := Tracker.coalesce d.p.trk, lastStart := size,
+                           lastEnd := size, procTimer := some ⟨env.now, rc.nakMs⟩ },
+           queue := nakSequence d.p.conf size m false (Tracker.coalesce d.p.trk),
+           numReady := (nakSequence d.p.conf size m false (Tracker.coalesce d.p.trk)).length }
+
+/-- **The deferred procedure after any history, something missing**: the call after the retrieval of the
+ACK (EOF) coalesces the listing, starts the NAK timer and queues exactly the NAK sequence of the listing
+(which by `C06_nak_requests_exactly_missing` requests exactly the undelivered bytes). -/
+theorem C03_deferred_any (env : Env) (d : DestSt) (dst : String) (F c crc : List UInt8) (seg : Nat)
+    (h : List (Nat × Nat)) (rc : RemoteCfg) (t : Tid) (cks : Nat) (conf : Hdr) (m : Nat)
+    (hr : AckedG d dst F c crc seg h rc t cks conf) (hmax : maxSegReqs rc.maxPkt conf = some m)
+    (hnak : rc.nakMs ≠ 0) (hmiss : d.p.trk ≠ []) :
+    stateMachine env none d = .ok () (afterDeferredG env d rc F.length m) := by
+  unfold stateMachine
+  generalize (stateMachineWith env none (stateMachineWith env none (throw Err.recursionError))) = rec
+  have hmax' : maxSegReqs rc.maxPkt d.p.conf = some m := by rw [hr.hconf]; exact hmax
+  have hpos : 0 < rc.nakMs := by omega
+  have hlen : ¬ d.p.trk.length = 0 := fun hc => hmiss (List.eq_nil_of_length_eq_zero hc)
+  have hlen' : 0 < d.p.trk.length := by omega
+  have hco : Tracker.coalesce d.p.trk ≠ [] := coalesce_ne_nil hmiss
+  have hcol : ¬ (Tracker.coalesce d.p.trk).length = 0 := fun hc => hco (List.eq_nil_of_length_eq_zero hc)
+  have hfirst := C06_deferred_first_issue env d rc F.length m hr.hcancel hr.hrc hr.hfse (Or.inl hco) hr.hpt hmax'
+  msimp [stateMachineWith, hr.hbusy, nonIdleFsm, fsmAdvancementAfterPacketsWereSent, hr.hqueue,
+    hr.hstep, hr.hcancel, hlen, hlen', hr.hmm, hfirst, afterFirstIssue,
+    fsmFromReceiving, fsmFromWaitingForMetadata, fsmFromCheckLimit, fsmFromWaitingForMissingData,
+    deferredLostSegmentHandling, getP, hr.hrc, hr.hfse, hcol, hco,
+    Timer.busy, Timer.timedOut, hnak, hpos, hr.hready,
+    fsmFromTransferCompletion, fsmFromSendingFinishedPdu, fsmFromWaitingForFinishedAck, afterDeferredG]
+
+/-- the receiver waiting for retransmissions after any history (NAKs retrieved) -/
+structure WaitG (d : DestSt) (dst : String) (F c crc : List UInt8) (seg : Nat) (h : List (Nat × Nat))
+    (rc : RemoteCfg) (t : Tid) (cks : Nat) (conf : Hdr) (tm : Timer) : Prop where
+  hbusy : d.state = .busy
+  hstep : d.step = .WAITING_FOR_MISSING_DATA
+  hready : d.numReady = 0
+  hqueue : d.queue = []
+  hconf : d.p.conf = conf
+  hmode : conf.mode = .ack
+  hname : d.p.fileName = dst
+  hfile : d.fs.get dst = some (.file c)
+  hlenle : c.length ≤ F.length
+  hcov : ∀ x, covered h x → c[x]? = F[x]?
+  hprog1 : d.p.progress ≤ F.length
+  hprog2 : ∀ q ∈ h, q.2 ≤ d.p.progress
+  hcrc : d.p.crc32 = crc
+  hfse : d.p.fileSizeEof = some F.length
+  hrc : d.p.remoteCfg = some rc
+  himm : rc.imm = false
+  htid : d.p.tid = some t
+  hrej : d.rejects = []
+  hcks : d.p.cksType = cks
+  hcancel : d.p.canceled = false
+  hmo : d.p.metadataOnly = false
+  hflts : d.flts = []
+  hfin : d.p.fin = ⟨ccNoError, dcIncomplete, fsRetained, none⟩
+  hmm : d.p.metadataMissing = false
+  hdef : d.p.deferredActive = true
+  hpt : d.p.procTimer = some tm
+  htm : 0 < tm.timeout
+  hmark : d.p.lastEnd = F.length
+  hinv : TInv seg F.length h (tsOf d.p)
+
+/-- the file after a tile was written, when only "delivered bytes are the source's" and "not longer than
+the source" are known (after the EOF the marker no longer is the file's length) -/
+theorem file_after_tile' {F c : List UInt8} {seg a b : Nat} {h : List (Nat × Nat)} (hs : 0 < seg)
+    (hT : Tile seg F.length a b) (hlen : c.length ≤ F.length) (hcov : ∀ x, covered h x → c[x]? = F[x]?)
+    (hh : ∀ q ∈ h, q.2 ≤ F.length) :
+    (Fs.writeBytes c (tileData F a b) a).length ≤ F.length ∧
+    ∀ x, covered (h ++ [(a, b)]) x → (Fs.writeBytes c (tileData F a b) a)[x]? = F[x]? := by
+  have hab := hT.lt hs
+  have hbs := hT.le_size
+  have hdl := tileData_length hT
+  have hne : tileData F a b ≠ [] := by
+    intro hc; rw [hc] at hdl; simp at hdl; omega
+  constructor
+  · have hemp : (tileData F a b).isEmpty = false := by cases h0 : tileData F a b <;> simp_all
+    simp only [Fs.writeBytes, hemp]
+    by_cases hgt : a > c.length
+    · simp [hgt, hdl]; omega
+    · simp [hgt, hdl]; omega
+  · intro x hx
+    rw [covered_append] at hx
+    rw [Fs.C17.write_get c _ a x hne, hdl]
+    by_cases hin : a ≤ x ∧ x < b
+    · have h1 : ¬ x < a := by omega
+      have h2 : x < a + (b - a) := by omega
+      simp only [h1, h2, if_false, if_true]
+      rw [tileData_get hT (x - a) (by omega)]
+      congr 1; omega
+    · have hc : covered h x := hx.resolve_right hin
+      have hcx := hcov x hc
+      obtain ⟨q, hq, q1, q2⟩ := hc
+      have hxF : x < F.length := by have := hh q hq; omega
+      have hxl : x < c.length := by
+        rw [List.getElem?_eq_getElem hxF] at hcx
+        by_contra hn
+        rw [List.getElem?_eq_none (by omega)] at hcx
+        cases hcx
+      by_cases h1 : x < a
+      · simp only [h1, if_true, Fs.C17.padded_get, hxl]
+        exact hcx
+      · have h2 : ¬ x < a + (b - a) := by omega
+        simp only [h1, h2, if_false, Fs.C17.padded_get, hxl, if_true]
+        exact hcx
+
+/-- all tiles of a `TInv` history lie within the file -/
+theorem _root_.Cfdp.C06.TInv.hist_le_size {seg size : Nat} {h : List (Nat × Nat)} {s : TS} (hi : TInv seg size h s) :
+    ∀ q ∈ h, q.2 ≤ size := fun q hq => Nat.le_trans (hi.hle q hq) hi.leSize
+
+/-- `AckedG`, the deferred procedure started, the NAKs retrieved: `WaitG` -/
+theorem WaitG.ofAckedG {env : Env} {d : DestSt} {dst : String} {F c crc : List UInt8} {seg : Nat}
+    {h : List (Nat × Nat)} {rc : RemoteCfg} {t : Tid} {cks : Nat} {conf : Hdr} {m : Nat}
+    (hr : AckedG d dst F c crc seg h rc t cks conf) (himm : rc.imm = false) (hnak : 0 < rc.nakMs)
+    (hp1 : d.p.progress ≤ F.length) (hp2 : ∀ q ∈ h, q.2 ≤ d.p.progress) :
+    WaitG (drained (afterDeferredG env d rc F.length m)) dst F c crc seg h rc t cks conf ⟨env.now, rc.nakMs⟩ :=
+  { hbusy := hr.hbusy, hstep := rfl, hready := rfl, hqueue := rfl, hconf := hr.hconf, hmode := hr.hmode,
+    hname := hr.hname, hfile := hr.hfile, hlenle := hr.hlenle, hcov := hr.hcov, hprog1 := hp1, hprog2 := hp2,
+    hcrc := hr.hcrc, hfse := hr.hfse, hrc := hr.hrc, himm := himm, htid := hr.htid, hrej := hr.hrej,
+    hcks := hr.hcks, hcancel := hr.hcancel, hmo := hr.hmo, hflts := hr.hflts, hfin := hr.hfin, hmm := hr.hmm,
+    hdef := rfl, hpt := rfl, htm := hnak, hmark := rfl,
+    hinv := by
+      obtain ⟨T, hT, htrk⟩ := hr.htrk
+      have := hT.eof
+      simpa [drained, afterDeferredG, tsOf, TS.eof, htrk, tailTrk] using this }
+
+/-- state after a retransmitted tile that does not complete the file -/
+def afterResentG (d : DestSt) (dst : String) (c data : List UInt8) (a b : Nat) (env : Env) (t : Tid)
+    (tm : Timer) : DestSt :=
+  { d with fs := d.fs.set dst (.file (Fs.writeBytes c data a)),
+           p := { withTs d.p ((tsOf d.p).tile a b) with progress := max b d.p.progress, nakCounter := 0,
+                                                          procTimer := some (tm.reset env.now) },
+           inds := d.inds ++ (if env.cfg.indSegRecv then [.segRecv (some t) a (b - a)] else []) }
+
+/-- **A retransmitted tile, something still missing**: written, removed from the listing; this is
+progress — the NAK counter returns to 0 and the NAK timer restarts —; nothing is queued. -/
+theorem C03_resent_tile_any (env : Env) (d : DestSt) (dst : String) (F c crc : List UInt8) (seg : Nat)
+    (h : List (Nat × Nat)) (rc : RemoteCfg) (t : Tid) (cks : Nat) (conf hd : Hdr) (tm : Timer) (a b : Nat)
+    (hs : 0 < seg) (hr : WaitG d dst F c crc seg h rc t cks conf tm) (ha : AdmissibleA env rc hd)
+    (hT : Tile seg F.length a b) (hmore : ((tsOf d.p).tile a b).trk ≠ []) :
+    stateMachine env (some (.fd hd a (tileData F a b))) d =
+      .ok () (afterResentG d dst c (tileData F a b) a b env t tm) ∧
+    WaitG (afterResentG d dst c (tileData F a b) a b env t tm) dst F (Fs.writeBytes c (tileData F a b) a) crc seg
+      (h ++ [(a, b)]) rc t cks conf (tm.reset env.now) := by
+  have hab := hT.lt hs
+  have hbs := hT.le_size
+  have hdl := tileData_length hT
+  have hsum : a + (b - a) = b := by omega
+  have hm : d.p.conf.mode = .ack := by rw [hr.hconf]; exact hr.hmode
+  obtain ⟨hflen, hfcov⟩ := file_after_tile' hs hT hr.hlenle hr.hcov hr.hinv.hist_le_size
+  have hmk := ((tsOf d.p).tile_marker_of_lt (a := a) (b := b) (by show a < d.p.lastEnd; rw [hr.hmark]; exact hT.2.1))
+  have hnb : ¬ b > F.length := by omega
+  have hlen0 : ¬ ((tsOf d.p).tile a b).trk.length = 0 := fun hc => hmore (List.eq_nil_of_length_eq_zero hc)
+  have htm := hr.htm
+  have htm' : ¬ tm.timeout = 0 := by omega
+  constructor
+  · unfold stateMachine
+    generalize (stateMachineWith env none (stateMachineWith env none (throw Err.recursionError))) = rec
+    obtain ⟨st, stp, nr, p, q, fs, fl, rej, ind, flt⟩ := d
+    have h1 := hr.hbusy; have h2 := hr.hstep; have h3 := hr.hready; have h4 := hr.hqueue; have h5 := hr.hrej
+    have h6 := hr.htid; have h7 := hr.hname; have h8 := hr.hfile; have h9 := hr.hfse; have h10 := hr.hfin
+    have h11 := hr.hrc; have h12 := hr.hdef; have h13 := hr.hpt; have h14 := hr.hcancel; have h15 := hr.hmm
+    try simp only at h1 h2 h3 h4 h5 h6 h7 h8 h9 h10 h11 h12 h13 h14 h15 hm hmore hlen0
+    subst h1 h2 h3 h4 h5
+    have hmore' : ((({ ls := p.lastStart, le := p.lastEnd, trk := p.trk } : TS).tile a b).trk = []) = False :=
+      eq_false hmore
+    cases hi : env.cfg.indSegRecv
+    · have hl := lsh_deferred ⟨.busy, .WAITING_FOR_MISSING_DATA, 0, p, [], fs, fl, [], ind, flt⟩ rc a b
+        (Nat.le_of_lt hab) h11 hr.himm
+      try simp only at hl
+      msimp [stateMachineWith, checkInsertedPacket, Pdu.hdr, ha.hdir, ha.hdst, ha.hsrc, Pdu.kind,
+        Route.getPacketDestination, transmissionMode, hm, nonIdleFsm,
+        fsmAdvancementAfterPacketsWereSent, fsmFromReceiving, fsmFromWaitingForMetadata, fsmFromCheckLimit,
+        fsmFromWaitingForMissingData, handleFdPdu,
+        fdIndication, hi, getP, emitInd, h6, fdLostSegments, hdl, hl,
+        fdWrite, vfsWriteData, h7, withTs,
+        Fs.writeData, h8, fdAfterWrite, sizeErrOf, modP, h9, hsum, hnb, h12, resetNakActivityParameters, h13,
+        deferredLostSegmentHandling, h14, h11, h15, hmore', Timer.busy, Timer.timedOut, Timer.reset, htm, htm',
+        fsmFromTransferCompletion, fsmFromSendingFinishedPdu,
+        fsmFromWaitingForFinishedAck, afterResentG, h10, tsOf]
+    · have hl := lsh_deferred ⟨.busy, .WAITING_FOR_MISSING_DATA, 0, p, [], fs, fl, [],
+          ind ++ [.segRecv (some t) a (b - a)], flt⟩ rc a b (Nat.le_of_lt hab) h11 hr.himm
+      try simp only at hl
+      msimp [stateMachineWith, checkInsertedPacket, Pdu.hdr, ha.hdir, ha.hdst, ha.hsrc, Pdu.kind,
+        Route.getPacketDestination, transmissionMode, hm, nonIdleFsm,
+        fsmAdvancementAfterPacketsWereSent, fsmFromReceiving, fsmFromWaitingForMetadata, fsmFromCheckLimit,
+        fsmFromWaitingForMissingData, handleFdPdu,
+        fdIndication, hi, getP, emitInd, h6, fdLostSegments, hdl, hl,
+        fdWrite, vfsWriteData, h7, withTs,
+        Fs.writeData, h8, fdAfterWrite, sizeErrOf, modP, h9, hsum, hnb, h12, resetNakActivityParameters, h13,
+        deferredLostSegmentHandling, h14, h11, h15, hmore', Timer.busy, Timer.timedOut, Timer.reset, htm, htm',
+        fsmFromTransferCompletion, fsmFromSendingFinishedPdu,
+        fsmFromWaitingForFinishedAck, afterResentG, h10, tsOf]
+  · exact
+      { hbusy := hr.hbusy, hstep := hr.hstep, hready := hr.hready, hqueue := hr.hqueue,
+        hconf := by simp [afterResentG, withTs, hr.hconf], hmode := hr.hmode,
+        hname := by simp [afterResentG, withTs, hr.hname],
+        hfile := by simp [afterResentG, Fs.C17.get_set_same],
+        hlenle := hflen, hcov := hfcov,
+        hprog1 := by
+          show max b d.p.progress ≤ F.length
+          have := hr.hprog1; omega,
+        hprog2 := by
+          intro q hq
+          show q.2 ≤ max b d.p.progress
+          simp at hq
+          rcases hq with hq | hq
+          · have := hr.hprog2 q hq; omega
+          · subst hq; simp only; omega,
+        hcrc := by simp [afterResentG, withTs, hr.hcrc], hfse := by simp [afterResentG, withTs, hr.hfse],
+        hrc := by simp [afterResentG, withTs, hr.hrc],
+        himm := hr.himm, htid := by simp [afterResentG, withTs, hr.htid], hrej := hr.hrej,
+        hcks := by simp [afterResentG, withTs, hr.hcks], hcancel := by simp [afterResentG, withTs, hr.hcancel],
+        hmo := by simp [afterResentG, withTs, hr.hmo], hflts := hr.hflts,
+        hfin := by simp [afterResentG, withTs, hr.hfin], hmm := by simp [afterResentG, withTs, hr.hmm],
+        hdef := by simp [afterResentG, withTs, hr.hdef], hpt := by simp [afterResentG, withTs],
+        htm := by simpa [Timer.reset] using hr.htm,
+        hmark := by
+          show ((tsOf d.p).tile a b).le = F.length
+          rw [hmk.1]; exact hr.hmark,
+        hinv := by
+          have := hr.hinv.tile hs hT
+          simpa [afterResentG, withTs, tsOf] using this }
+
+/-- state after the retransmitted tile that completes the file -/
+def afterLastG (d : DestSt) (dst : String) (F : List UInt8) (a b : Nat) (env : Env) (t : Tid) (rc : RemoteCfg)
+    (tm : Timer) : DestSt :=
+  { d with step := .WAITING_FOR_FINISHED_ACK, fs := d.fs.set dst (.file F),
+           p := { withTs d.p ((tsOf d.p).tile a b) with
+                    progress := F.length, fin := ⟨ccNoError, dcComplete, fsRetained, none⟩,
+                    ackTimer := some ⟨env.now, rc.ackMs⟩, ackCounter := 0, deferredActive := false,
+                    nakCounter := 0, procTimer := some (tm.reset env.now) },
+           queue := [mkFin d.p.conf ⟨ccNoError, dcComplete, fsRetained, none⟩], numReady := 1,
+           inds := d.inds ++ (if env.cfg.indSegRecv then [.segRecv (some t) a (b - a)] else []) ++
+             (if env.cfg.indFinished
+               then [.finished (some t) ⟨ccNoError, dcComplete, fsRetained, none⟩] else []) }
+
+/-- **The retransmitted tile that completes the file**: the listing becomes empty, the checksum of the
+stored file is verified against the EOF's, the user is told (No error, Data complete, File retained),
+exactly one Finished PDU with those values is queued and its positive-ACK procedure starts. -/
+theorem C03_last_resent_tile_any (env : Env) (d : DestSt) (dst : String) (F c crc : List UInt8) (seg : Nat)
+    (h : List (Nat × Nat)) (rc : RemoteCfg) (t : Tid) (cks : Nat) (conf hd : Hdr) (tm : Timer) (a b : Nat)
+    (hs : 0 < seg) (hr : WaitG d dst F c crc seg h rc t cks conf tm) (ha : AdmissibleA env rc hd)
+    (hT : Tile seg F.length a b) (hlast : ((tsOf d.p).tile a b).trk = [])
+    (hfull : Fs.writeBytes c (tileData F a b) a = F) (hprog : max b d.p.progress = F.length)
+    (hms : rc.ackMs ≠ 0)
+    (hver : cks = 15 ∨ ∀ fs : Fs, fs.get dst = some (.file F) →
+      Fs.calcChecksum fs (Checksum.CksType.ofNat cks) dst F.length 4096 = .ok crc) :
+    stateMachine env (some (.fd hd a (tileData F a b))) d = .ok () (afterLastG d dst F a b env t rc tm) := by
+  have hab := hT.lt hs
+  have hbs := hT.le_size
+  have hdl := tileData_length hT
+  have hsum : a + (b - a) = b := by omega
+  have hm : d.p.conf.mode = .ack := by rw [hr.hconf]; exact hr.hmode
+  have hnb : ¬ b > F.length := by omega
+  have hpos : 0 < rc.ackMs := by omega
+  unfold stateMachine
+  generalize (stateMachineWith env none (stateMachineWith env none (throw Err.recursionError))) = rec
+  obtain ⟨st, stp, nr, p, q, fs, fl, rej, ind, flt⟩ := d
+  have h1 := hr.hbusy; have h2 := hr.hstep; have h3 := hr.hready; have h4 := hr.hqueue; have h5 := hr.hrej
+  have h6 := hr.htid; have h7 := hr.hname; have h8 := hr.hfile; have h9 := hr.hfse; have h10 := hr.hfin
+  have h11 := hr.hrc; have h12 := hr.hdef; have h13 := hr.hpt; have h14 := hr.hcancel; have h15 := hr.hmm
+  have h16 := hr.hcks; have h17 := hr.hmo; have h18 := hr.hcrc
+  try simp only at h1 h2 h3 h4 h5 h6 h7 h8 h9 h10 h11 h12 h13 h14 h15 h16 h17 h18 hm hlast hprog
+  subst h1 h2 h3 h4 h5
+  have hlast' : (({ ls := p.lastStart, le := p.lastEnd, trk := p.trk } : TS).tile a b).trk = [] := hlast
+  have hcc : cks = 15 ∨ Fs.calcChecksum (fs.set dst (.file F)) (Checksum.CksType.ofNat cks) dst F.length 4096 = .ok crc := by
+    rcases hver with hv | hv
+    · exact Or.inl hv
+    · exact Or.inr (hv _ (by simp [Fs.C17.get_set_same]))
+  by_cases hnull : cks = 15
+  · cases hi : env.cfg.indSegRecv <;> cases hf : env.cfg.indFinished <;>
+    (first
+      | (have hl := lsh_deferred ⟨.busy, .WAITING_FOR_MISSING_DATA, 0, p, [], fs, fl, [], ind, flt⟩ rc a b
+            (Nat.le_of_lt hab) h11 hr.himm
+         try simp only at hl
+         msimp [stateMachineWith, checkInsertedPacket, Pdu.hdr, ha.hdir, ha.hdst, ha.hsrc, Pdu.kind,
+          Route.getPacketDestination, transmissionMode, hm, nonIdleFsm,
+          fsmAdvancementAfterPacketsWereSent, fsmFromReceiving, fsmFromWaitingForMetadata, fsmFromCheckLimit,
+          fsmFromWaitingForMissingData, handleFdPdu,
+          fdIndication, hi, getP, emitInd, h6, fdLostSegments, hdl, hl,
+          fdWrite, vfsWriteData, h7, withTs,
+          Fs.writeData, h8, hfull, fdAfterWrite, sizeErrOf, modP, h9, hsum, hnb, hprog, h12,
+          resetNakActivityParameters, h13,
+          deferredLostSegmentHandling, h14, h11, h15, hlast', checksumVerify, h16, hnull, markComplete,
+          fsmFromTransferCompletion, handleTransferCompletion, noticeOfCompletion, hf,
+          fsmFromSendingFinishedPdu, prepareFinishedPdu, addPacket,
+          handleFinishedPduSent, startPositiveAckProcedure, fsmFromWaitingForFinishedAck,
+          handleWaitingForFinishedAck, handlePositiveAckProcedures, Timer.timedOut, Timer.reset, hms, hpos,
+          afterLastG, h10, tsOf]
+         done)
+      | (have hl := lsh_deferred ⟨.busy, .WAITING_FOR_MISSING_DATA, 0, p, [], fs, fl, [],
+            ind ++ [.segRecv (some t) a (b - a)], flt⟩ rc a b (Nat.le_of_lt hab) h11 hr.himm
+         try simp only at hl
+         msimp [stateMachineWith, checkInsertedPacket, Pdu.hdr, ha.hdir, ha.hdst, ha.hsrc, Pdu.kind,
+          Route.getPacketDestination, transmissionMode, hm, nonIdleFsm,
+          fsmAdvancementAfterPacketsWereSent, fsmFromReceiving, fsmFromWaitingForMetadata, fsmFromCheckLimit,
+          fsmFromWaitingForMissingData, handleFdPdu,
+          fdIndication, hi, getP, emitInd, h6, fdLostSegments, hdl, hl,
+          fdWrite, vfsWriteData, h7, withTs,
+          Fs.writeData, h8, hfull, fdAfterWrite, sizeErrOf, modP, h9, hsum, hnb, hprog, h12,
+          resetNakActivityParameters, h13,
+          deferredLostSegmentHandling, h14, h11, h15, hlast', checksumVerify, h16, hnull, markComplete,
+          fsmFromTransferCompletion, handleTransferCompletion, noticeOfCompletion, hf,
+          fsmFromSendingFinishedPdu, prepareFinishedPdu, addPacket,
+          handleFinishedPduSent, startPositiveAckProcedure, fsmFromWaitingForFinishedAck,
+          handleWaitingForFinishedAck, handlePositiveAckProcedures, Timer.timedOut, Timer.reset, hms, hpos,
+          afterLastG, h10, tsOf]
+         done))
+  · have hc := hcc.resolve_left hnull
+    cases hi : env.cfg.indSegRecv <;> cases hf : env.cfg.indFinished <;>
+    (first
+      | (have hl := lsh_deferred ⟨.busy, .WAITING_FOR_MISSING_DATA, 0, p, [], fs, fl, [], ind, flt⟩ rc a b
+            (Nat.le_of_lt hab) h11 hr.himm
+         try simp only at hl
+         msimp [stateMachineWith, checkInsertedPacket, Pdu.hdr, ha.hdir, ha.hdst, ha.hsrc, Pdu.kind,
+          Route.getPacketDestination, transmissionMode, hm, nonIdleFsm,
+          fsmAdvancementAfterPacketsWereSent, fsmFromReceiving, fsmFromWaitingForMetadata, fsmFromCheckLimit,
+          fsmFromWaitingForMissingData, handleFdPdu,
+          fdIndication, hi, getP, emitInd, h6, fdLostSegments, hdl, hl,
+          fdWrite, vfsWriteData, h7, withTs,
+          Fs.writeData, h8, hfull, fdAfterWrite, sizeErrOf, modP, h9, hsum, hnb, hprog, h12,
+          resetNakActivityParameters, h13,
+          deferredLostSegmentHandling, h14, h11, h15, hlast', checksumVerify, h16, hnull, h17, hc, h18, markComplete,
+          fsmFromTransferCompletion, handleTransferCompletion, noticeOfCompletion, hf,
+          fsmFromSendingFinishedPdu, prepareFinishedPdu, addPacket,
+          handleFinishedPduSent, startPositiveAckProcedure, fsmFromWaitingForFinishedAck,
+          handleWaitingForFinishedAck, handlePositiveAckProcedures, Timer.timedOut, Timer.reset, hms, hpos,
+          afterLastG, h10, tsOf]
+         done)
+      | (have hl := lsh_deferred ⟨.busy, .WAITING_FOR_MISSING_DATA, 0, p, [], fs, fl, [],
+            ind ++ [.segRecv (some t) a (b - a)], flt⟩ rc a b (Nat.le_of_lt hab) h11 hr.himm
+         try simp only at hl
+         msimp [stateMachineWith, checkInsertedPacket, Pdu.hdr, ha.hdir, ha.hdst, ha.hsrc, Pdu.kind,
+          Route.getPacketDestination, transmissionMode, hm, nonIdleFsm,
+          fsmAdvancementAfterPacketsWereSent, fsmFromReceiving, fsmFromWaitingForMetadata, fsmFromCheckLimit,
+          fsmFromWaitingForMissingData, handleFdPdu,
+          fdIndication, hi, getP, emitInd, h6, fdLostSegments, hdl, hl,
+          fdWrite, vfsWriteData, h7, withTs,
+          Fs.writeData, h8, hfull, fdAfterWrite, sizeErrOf, modP, h9, hsum, hnb, hprog, h12,
+          resetNakActivityParameters, h13,
+          deferredLostSegmentHandling, h14, h11, h15, hlast', checksumVerify, h16, hnull, h17, hc, h18, markComplete,
+          fsmFromTransferCompletion, handleTransferCompletion, noticeOfCompletion, hf,
+          fsmFromSendingFinishedPdu, prepareFinishedPdu, addPacket,
+          handleFinishedPduSent, startPositiveAckProcedure, fsmFromWaitingForFinishedAck,
+          handleWaitingForFinishedAck, handlePositiveAckProcedures, Timer.timedOut, Timer.reset, hms, hpos,
+          afterLastG, h10, tsOf]
+         done))
+
+/-- the listing is empty exactly when everything below the marker was delivered -/
+theorem _root_.Cfdp.C06.TInv.trk_nil_iff {seg size : Nat} {h : List (Nat × Nat)} {s : TS} (hi : TInv seg size h s) :
+    s.trk = [] ↔ ∀ x, x < s.le → covered h x := by
+  constructor
+  · intro he x hx
+    have := (hi.exact x).2
+    rw [he] at this
+    exact Classical.byContradiction fun hc => by simpa using this ⟨hx, hc⟩
+  · intro hall
+    cases htrk : s.trk with
+    | nil => rfl
+    | cons r t =>
+      have hw := hi.wf
+      rw [htrk] at hw
+      have hr : den s.trk r.1 := by rw [htrk]; exact ⟨r, List.mem_cons_self, Nat.le_refl _, hw.2.1⟩
+      have := (hi.exact r.1).1 hr
+      exact absurd (hall r.1 this.1) this.2
+
+theorem covered_mono {h h' : List (Nat × Nat)} {x : Nat} (hc : covered h x) : covered (h ++ h') x := by
+  obtain ⟨q, hq, h1, h2⟩ := hc
+  exact ⟨q, List.mem_append_left _ hq, h1, h2⟩
+
+/-- **Any retransmissions that leave something missing**: each is taken in one call that returns and
+queues nothing; the receiver keeps waiting, in `WaitG` for the extended history. -/
+theorem C03_wait_any_history (env : Env) (hd : Hdr) (dst : String) (F crc : List UInt8) (seg : Nat)
+    (rc : RemoteCfg) (t : Tid) (cks : Nat) (conf : Hdr) (hs : 0 < seg) (ha : AdmissibleA env rc hd) :
+    ∀ (h2 : List (Nat × Nat)) (d : DestSt) (c : List UInt8) (h : List (Nat × Nat)) (tm : Timer),
+      (∀ q ∈ h2, Tile seg F.length q.1 q.2) → WaitG d dst F c crc seg h rc t cks conf tm →
+      (∃ x, x < F.length ∧ ¬ covered (h ++ h2) x) →
+      ∃ d' c' tm', feedTiles env hd F h2 d = some d' ∧ WaitG d' dst F c' crc seg (h ++ h2) rc t cks conf tm' ∧
+        (∀ q, q ≠ dst → d'.fs.get q = d.fs.get q) ∧
+        d'.inds.filter isFinished = d.inds.filter isFinished := by
+  intro h2
+  induction h2 with
+  | nil => intro d c h tm _ hr _; exact ⟨d, c, tm, rfl, by simpa using hr, fun _ _ => rfl, rfl⟩
+  | cons q h2 ih =>
+    intro d c h tm hT hr hmiss
+    have hTq := hT q List.mem_cons_self
+    have hinv' := hr.hinv.tile hs hTq
+    have hmark' : ((tsOf d.p).tile q.1 q.2).le = F.length := by
+      rw [((tsOf d.p).tile_marker_of_lt (by show q.1 < d.p.lastEnd; rw [hr.hmark]; exact hTq.2.1)).1]
+      exact hr.hmark
+    have hmore : ((tsOf d.p).tile q.1 q.2).trk ≠ [] := by
+      intro hnil
+      obtain ⟨x, hx, hnc⟩ := hmiss
+      have := (hinv'.trk_nil_iff).1 hnil x (by rw [hmark']; exact hx)
+      apply hnc
+      have h' : covered ((h ++ [(q.1, q.2)]) ++ h2) x := covered_mono this
+      simpa [List.append_assoc] using h'
+    obtain ⟨hcall, hr'⟩ := C03_resent_tile_any env d dst F c crc seg h rc t cks conf hd tm q.1 q.2 hs hr ha hTq hmore
+    obtain ⟨d', c', tm', hf, hR, hother, hfin⟩ := ih _ _ _ _ (fun r hr => hT r (List.mem_cons_of_mem _ hr)) hr'
+      (by simpa [List.append_assoc] using hmiss)
+    refine ⟨d', c', tm', ?_, ?_, ?_, ?_⟩
+    · simp only [feedTiles, hcall]; exact hf
+    · simpa [List.append_assoc] using hR
+    · intro p hp
+      rw [hother p hp]
+      simp [afterResentG, Fs.C17.get_set_other _ _ _ _ hp]
+    · rw [hfin]
+      simp only [afterResentG, List.filter_append]
+      split <;> simp [isFinished]
+
+/-- everything delivered: the stored bytes are the source file -/
+theorem file_complete {F c : List UInt8} {h : List (Nat × Nat)} (hlen : c.length ≤ F.length)
+    (hcov : ∀ x, covered h x → c[x]? = F[x]?) (hall : ∀ x, x < F.length → covered h x) : c = F := by
+  have hl : c.length = F.length := by
+    rcases Nat.eq_zero_or_pos F.length with h0 | hp
+    · omega
+    · have := hcov (F.length - 1) (hall _ (by omega))
+      rw [List.getElem?_eq_getElem (by omega : F.length - 1 < F.length)] at this
+      by_contra hn
+      rw [List.getElem?_eq_none (by omega)] at this
+      cases this
+  apply List.ext_getElem?
+  intro i
+  by_cases hi : i < F.length
+  · exact hcov i (hall i hi)
+  · rw [List.getElem?_eq_none (by omega), List.getElem?_eq_none (by omega)]
+
+/-- **The retransmission that delivers the last missing byte completes the transfer** — whatever was
+lost before, in whatever order it was re-sent. -/
+theorem C03_last_tile_completes (env : Env) (d : DestSt) (dst : String) (F c crc : List UInt8) (seg : Nat)
+    (h : List (Nat × Nat)) (rc : RemoteCfg) (t : Tid) (cks : Nat) (conf hd : Hdr) (tm : Timer) (a b : Nat)
+    (hs : 0 < seg) (hr : WaitG d dst F c crc seg h rc t cks conf tm) (ha : AdmissibleA env rc hd)
+    (hT : Tile seg F.length a b) (hall : ∀ x, x < F.length → covered (h ++ [(a, b)]) x)
+    (hms : rc.ackMs ≠ 0)
+    (hver : cks = 15 ∨ ∀ fs : Fs, fs.get dst = some (.file F) →
+      Fs.calcChecksum fs (Checksum.CksType.ofNat cks) dst F.length 4096 = .ok crc) :
+    stateMachine env (some (.fd hd a (tileData F a b))) d = .ok () (afterLastG d dst F a b env t rc tm) := by
+  have hinv' := hr.hinv.tile hs hT
+  have hmark' : ((tsOf d.p).tile a b).le = F.length := by
+    rw [((tsOf d.p).tile_marker_of_lt (by show a < d.p.lastEnd; rw [hr.hmark]; exact hT.2.1)).1]
+    exact hr.hmark
+  have hlast : ((tsOf d.p).tile a b).trk = [] :=
+    (hinv'.trk_nil_iff).2 (fun x hx => hall x (by rw [hmark'] at hx; exact hx))
+  obtain ⟨hflen, hfcov⟩ := file_after_tile' hs hT hr.hlenle hr.hcov hr.hinv.hist_le_size
+  have hfull : Fs.writeBytes c (tileData F a b) a = F := file_complete hflen hfcov hall
+  have hbs := hT.le_size
+  have hab := hT.lt hs
+  have hprog : max b d.p.progress = F.length := by
+    have h1 := hr.hprog1
+    have hF : 0 < F.length := by omega
+    obtain ⟨q, hq, q1, q2⟩ := hall (F.length - 1) (by omega)
+    simp at hq
+    rcases hq with hq | hq
+    · have := hr.hprog2 q hq
+      have := hr.hinv.hist_le_size q hq
+      omega
+    · subst hq; simp only at q2; omega
+  exact C03_last_resent_tile_any env d dst F c crc seg h rc t cks conf hd tm a b hs hr ha hT hlast hfull hprog hms hver
+
+/-- **Recovery from any loss of File Data PDUs — the receiver's side, composed.**  After the Metadata
+PDU (acknowledged, deferred NAK mode) the File Data PDUs of any history `h1` of tiles arrive — any
+order, any losses, any duplicates —, then the EOF.  Something is missing, so the call after the
+retrieval of the ACK (EOF) issues the NAK sequence, which requests **exactly** the bytes that `h1` did not
+deliver.  Retransmitted tiles `h2` arrive in any order (any of them again, too), still leaving
+something missing; finally the tile `[a, b)` that delivers the last missing byte.  Every call returns;
+the last one verifies the checksum, tells the user No error / Data complete / File retained and queues
+exactly one Finished PDU with those values; the destination file is the source file and no other path
+of the filestore was touched. -/
+theorem C03_receiver_recovers_any_loss (env : Env) (hd : Hdr) (d0 : DestSt) (dst : String) (F crc : List UInt8)
+    (seg m : Nat) (rc : RemoteCfg) (t : Tid) (cks : Nat) (conf : Hdr) (h1 h2 : List (Nat × Nat)) (a b : Nat)
+    (hs : 0 < seg) (hm1 : 1 ≤ m) (ha : AdmissibleA env rc hd)
+    (hr0 : ReceivingA d0 dst [] rc t cks conf) (himm : rc.imm = false) (hpt0 : d0.p.procTimer = none)
+    (hmax : maxSegReqs rc.maxPkt conf = some m) (hnak : rc.nakMs ≠ 0) (hms : rc.ackMs ≠ 0)
+    (hT1 : ∀ q ∈ h1, Tile seg F.length q.1 q.2) (hT2 : ∀ q ∈ h2, Tile seg F.length q.1 q.2)
+    (hT : Tile seg F.length a b)
+    (hmiss : ∃ x, x < F.length ∧ ¬ covered (h1 ++ h2) x)
+    (hall : ∀ x, x < F.length → covered (h1 ++ h2 ++ [(a, b)]) x)
+    (hver : cks = 15 ∨ ∀ fs : Fs, fs.get dst = some (.file F) →
+      Fs.calcChecksum fs (Checksum.CksType.ofNat cks) dst F.length 4096 = .ok crc) :
+    ∃ d1 d2 d3 d4 tm,
+      feedTiles env hd F h1 d0 = some d1 ∧
+      stateMachine env (some (.eof hd ccNoError crc F.length none)) d1 = .ok () d2 ∧
+      d2.queue = [mkAck conf dtEof ccNoError tsActive] ∧
+      stateMachine env none (drained d2) = .ok () d3 ∧
+      (∀ x, requested d3.queue x ↔ (x < F.length ∧ ¬ covered h1 x)) ∧
+      feedTiles env hd F h2 (drained d3) = some d4 ∧
+      stateMachine env (some (.fd hd a (tileData F a b))) d4 = .ok () (afterLastG d4 dst F a b env t rc tm) ∧
+      (afterLastG d4 dst F a b env t rc tm).queue = [mkFin conf ⟨ccNoError, dcComplete, fsRetained, none⟩] ∧
+      (afterLastG d4 dst F a b env t rc tm).fs.get dst = some (.file F) ∧
+      (∀ q, q ≠ dst → (afterLastG d4 dst F a b env t rc tm).fs.get q = d0.fs.get q) ∧
+      (afterLastG d4 dst F a b env t rc tm).flts = [] := by
+  -- the File Data PDUs that arrive
+  obtain ⟨d1, c1, hf1, hR1, ho1, -⟩ := C03_receiver_any_history env hd dst F seg rc t cks conf hs ha h1 d0 [] []
+    hT1 (RecvG.ofReceivingA hr0 himm hpt0)
+  simp only [List.nil_append] at hR1
+  -- the EOF
+  have heof := C03_eof_any env d1 dst F c1 crc seg h1 rc t cks conf hd hR1 ha
+  have hA : AckedG (drained (afterEofG env d1 t crc F.length)) dst F c1 crc seg h1 rc t cks conf :=
+    AckedG.ofRecvG hR1
+  -- something is missing: the deferred procedure
+  have hmiss1 : ∃ x, x < F.length ∧ ¬ covered h1 x := by
+    obtain ⟨x, hx, hnc⟩ := hmiss
+    exact ⟨x, hx, fun hc => hnc (covered_mono hc)⟩
+  have hEofInv := hR1.hinv.eof
+  have htrkne : (drained (afterEofG env d1 t crc F.length)).p.trk ≠ [] := by
+    intro hnil
+    have hco : ((tsOf d1.p).eof F.length).trk = [] := by
+      show Tracker.coalesce (tailTrk (tsOf d1.p) F.length) = []
+      have : tailTrk (tsOf d1.p) F.length = [] := hnil
+      rw [this]; rfl
+    obtain ⟨x, hx, hnc⟩ := hmiss1
+    exact hnc ((hEofInv.trk_nil_iff).1 hco x hx)
+  have hdefc := C03_deferred_any env _ dst F c1 crc seg h1 rc t cks conf m hA hmax hnak htrkne
+  have hW : WaitG (drained (afterDeferredG env (drained (afterEofG env d1 t crc F.length)) rc F.length m)) dst F c1
+      crc seg h1 rc t cks conf ⟨env.now, rc.nakMs⟩ :=
+    WaitG.ofAckedG hA himm (by omega)
+      (by show d1.p.progress ≤ F.length; rw [hR1.hprog]; exact hR1.hinv.leSize)
+      (by intro q hq; show q.2 ≤ d1.p.progress; rw [hR1.hprog]; exact hR1.hinv.hle q hq)
+  -- retransmissions that leave something missing
+  obtain ⟨d4, c4, tm4, hf4, hR4, ho4, -⟩ := C03_wait_any_history env hd dst F crc seg rc t cks conf hs ha h2 _ c1 h1 _
+    hT2 hW hmiss
+  -- the last one
+  have hlastc := C03_last_tile_completes env d4 dst F c4 crc seg (h1 ++ h2) rc t cks conf hd tm4 a b hs hR4 ha hT
+    hall hms hver
+  refine ⟨d1, afterEofG env d1 t crc F.length, _, d4, tm4, hf1, heof, ?_, hdefc, ?_, hf4, hlastc, ?_, ?_, ?_, ?_⟩
+  · simp [afterEofG, hR1.hconf]
+  · intro x
+    have hq : (afterDeferredG env (drained (afterEofG env d1 t crc F.length)) rc F.length m).queue =
+        nakSequence conf F.length m false ((tsOf d1.p).eof F.length).trk := by
+      simp [afterDeferredG, drained, afterEofG, eofP, hR1.hconf, TS.eof, tailTrk, tsOf]
+    rw [hq]
+    have hflat : flat (nakSequence conf F.length m false ((tsOf d1.p).eof F.length).trk) =
+        ((tsOf d1.p).eof F.length).trk := by
+      simpa using C06_nak_sequence_exact conf F.length m hm1 false _
+    have := hEofInv.exact x
+    simp only [requested, hflat]
+    exact this
+  · simp [afterLastG, hR4.hconf]
+  · simp [afterLastG, Fs.C17.get_set_same]
+  · intro q hq
+    have e1 : (afterLastG d4 dst F a b env t rc tm4).fs.get q = d4.fs.get q := by
+      simp [afterLastG, Fs.C17.get_set_other _ _ _ _ hq]
+    rw [e1, ho4 q hq]
+    show d1.fs.get q = d0.fs.get q
+    exact ho1 q hq
+  · show d4.flts = []
+    exact hR4.hflts
+
+/-! ### the sender's answers to grid-aligned requests are tiles of the grid -/
+
+open Source.C08 in
+/-- the chunks with which the sender answers a request `[cur, cur + missing)` that starts on the grid and
+ends on the grid or at the end of the file are tiles of the grid -/
+theorem chunkRanges_tiles (seg size : Nat) (hs : 0 < seg) :
+    ∀ (fuel cur missing : Nat), missing ≤ fuel → seg ∣ cur → OnGrid seg size (cur + missing) →
+      cur + missing ≤ size → ∀ r ∈ chunkRanges seg fuel cur missing, Tile seg size r.1 (r.1 + r.2) := by
+  intro fuel
+  induction fuel with
+  | zero => intro cur missing _ _ _ _ r hr; simp [chunkRanges] at hr
+  | succ fuel ih =>
+    intro cur missing hf hc hg hle r hr
+    unfold chunkRanges at hr
+    by_cases hm : missing > 0
+    · simp only [hm, if_true, List.mem_cons] at hr
+      by_cases hge : seg ≤ missing
+      · have hmin : min missing seg = seg := by omega
+        rw [hmin] at hr
+        rcases hr with rfl | hr
+        · exact ⟨hc, by omega, by simp only; omega⟩
+        · exact ih (cur + seg) (missing - seg) (by omega) (Nat.dvd_add hc (Nat.dvd_refl _))
+            (by have : cur + seg + (missing - seg) = cur + missing := by omega
+                rw [this]; exact hg) (by omega) r hr
+      · have hmin : min missing seg = missing := by omega
+        rw [hmin, Nat.sub_self] at hr
+        rcases hr with rfl | hr
+        · refine ⟨hc, by omega, ?_⟩
+          simp only
+          rcases hg with hg | hg
+          · exfalso
+            have : seg ∣ missing := (Nat.dvd_add_right hc).1 hg
+            have := Nat.le_of_dvd hm this
+            omega
+          · omega
+        · cases fuel <;> simp [chunkRanges] at hr
+    · simp [hm] at hr
+
+open Source.C08 in
+/-- **The sender's answer to a grid-aligned request consists of tiles**: the File Data PDUs re-sent for
+`[A, B)` (`A` on the grid, `B` on the grid or the end of the file) are, in ascending order, the PDUs
+`mkFd conf a (tileData F a b)` of tiles `(a, b)` of the grid that together tile `[A, B)` — the PDUs the
+receiver's recovery theorem takes. -/
+theorem C03_answer_is_tiles (conf : Hdr) (F : List UInt8) (seg A B : Nat) (hs : 0 < seg) (hAB : A ≤ B)
+    (hA : seg ∣ A) (hB : OnGrid seg F.length B) (hle : B ≤ F.length) :
+    chunkPdus conf F seg (B - A) A (B - A) =
+      (chunkRanges seg (B - A) A (B - A)).map (fun r => Source.mkFd conf r.1 (tileData F r.1 (r.1 + r.2))) ∧
+    (∀ r ∈ chunkRanges seg (B - A) A (B - A), Tile seg F.length r.1 (r.1 + r.2) ∧ A ≤ r.1 ∧ r.1 + r.2 ≤ B) ∧
+    ((chunkRanges seg (B - A) A (B - A)).map (·.2)).sum = B - A := by
+  have hsum : A + (B - A) = B := by omega
+  obtain ⟨c1, c2, -, -⟩ := C08_chunks_tile seg hs (B - A) A (B - A) (Nat.le_refl _)
+  refine ⟨?_, ?_, c2⟩
+  · rw [C08_chunk_pdus_content]
+    apply List.map_congr_left
+    intro r _
+    simp [tileData]
+  · intro r hr
+    refine ⟨chunkRanges_tiles seg F.length hs (B - A) A (B - A) (Nat.le_refl _) hA (by rw [hsum]; exact hB)
+      (by omega) r hr, ?_, ?_⟩
+    · exact (c1 r hr).2.2.1
+    · have := (c1 r hr).2.2.2; omega
+
+end AnyLoss
+
 end Cfdp.C03
 
 /-! ## the hypotheses of the composed theorems are satisfiable (non-vacuity) -/
@@ -4194,5 +5178,36 @@ example : True := by
     ⟨rfl, rfl, by decide, rfl⟩ (by decide) (by decide) (by decide) (by decide)
     rfl rfl rfl rfl rfl (by decide) (Or.inl ⟨[9], rfl⟩)
   trivial
+
+section AnyLossEx
+open Cfdp.C06
+
+def hdrD : Hdr := ⟨.toRecv, .ack, false, false, ⟨1, 2⟩, ⟨2, 2⟩, ⟨0, 2⟩⟩
+
+/-- the hypotheses of `C03_receiver_recovers_any_loss` are satisfiable: 5 bytes in segments of 2; the last
+tile overtakes the first, the middle one is lost; after the NAK the first tile arrives once more, then the
+missing one -/
+example : True := by
+  obtain ⟨-, hR⟩ := C02_metadata_ack envD d0 hdrD rcD false 3 5 "/a" "/b" none ⟨rfl, rfl, by decide, rfl⟩
+    rfl rfl rfl rfl rfl (by decide) (Or.inl ⟨[9], rfl⟩)
+  have h := C03_receiver_recovers_any_loss envD hdrD _ "/b" F [71, 11, 153, 244] 2 29 rcD ⟨⟨1, 2⟩, ⟨0, 2⟩⟩ 3 _
+    [(4, 5), (0, 2)] [(0, 2)] 2 4 (by decide) (by decide) ⟨rfl, rfl, by decide, rfl⟩ hR rfl rfl (by decide)
+    (by decide) (by decide)
+    (by intro q hq; simp at hq; rcases hq with rfl | rfl
+        · exact ⟨⟨2, rfl⟩, by decide, rfl⟩
+        · exact ⟨⟨0, rfl⟩, by decide, rfl⟩)
+    (by intro q hq; simp at hq; subst hq; exact ⟨⟨0, rfl⟩, by decide, rfl⟩)
+    ⟨⟨1, rfl⟩, by decide, rfl⟩
+    ⟨2, by decide, by simp [covered]⟩
+    (by intro x hx
+        have : x = 0 ∨ x = 1 ∨ x = 2 ∨ x = 3 ∨ x = 4 := by simp [F] at hx; omega
+        rcases this with rfl | rfl | rfl | rfl | rfl <;> simp [covered])
+    (Or.inr (by
+      intro fs hfs
+      simp only [Fs.calcChecksum, hfs]
+      decide +kernel))
+  trivial
+
+end AnyLossEx
 
 end Cfdp.C03.Ex
